@@ -1485,6 +1485,82 @@ def gen_settings(repo, out_path):
     return text
 
 
+KERNELS = [
+    # (fn in `impl Math for CpuMath`, outputs in closure-parameter naming)
+    ("array_update_variance", ["mean", "var"]),
+    ("array_update_var_inv_std_draw", ["std_out", "inv_std_out"]),
+    ("array_update_var_inv_std_draw_grad", ["std_out", "inv_std_out"]),
+    ("array_update_var_inv_std_grad", ["std_out", "inv_std_out"]),
+]
+
+def closure_kernel(rf, fn_name):
+    text, line = rf.impl_fn("CpuMath", fn_name, "Math")
+    # signature: captured scalar parameters
+    sig = text[text.index("(") + 1:]
+    depth = 1; i = 0
+    while depth:
+        c = sig[i]
+        depth += c == "("; depth -= c == ")"; i += 1
+    sig = sig[:i - 1]
+    caps = []
+    for part in re.split(r",(?![^()<>]*[)>])", sig):
+        part = part.strip()
+        if not part or "self" in part.split(":")[0]:
+            continue
+        name, ty = [x.strip() for x in part.split(":", 1)]
+        ty = ty.replace(" ", "")
+        if ty == "f64":
+            caps.append((name, "f64", [name]))
+        elif ty == "Option<f64>":
+            caps.append((name, "Option<f64>", [name]))
+        elif ty == "(f64,f64)":
+            caps.append((name, "tuple", [name + "_0", name + "_1"]))
+        # vectors are the closure's element parameters
+    m = re.search(r"\.for_each\(\s*\|\(([^)]*)\)\|\s*\{", text)
+    if not m or len(re.findall(r"\.for_each\(", text)) != 1:
+        raise Untranslatable(f"{rf.path}: {fn_name}: expected exactly one element-wise `.for_each(|(..)| {{..}})` closure")
+    pats = [p.strip() for p in m.group(1).split(",") if p.strip()]
+    names = [p.lstrip("&").strip() for p in pats]
+    b0 = m.end() - 1
+    b1 = find_matching(text, b0)
+    body = text[b0 + 1:b1]
+    # everything else in the function must be plumbing (slices, iterators, dispatch): no arithmetic outside the closure
+    rest = text[:m.start()] + text[b1 + 1:]
+    if re.search(r"[-+*/]\s*[A-Za-z0-9_(]|\.(sqrt|recip|clamp|abs|ln|exp)\(", rest.split("{", 1)[1]):
+        raise Untranslatable(f"{rf.path}: {fn_name}: arithmetic outside the element-wise closure")
+    mutated = [n for n in names if re.search(r"\*%s\s*(=|\+=|-=|\*=)" % re.escape(n), body)]
+    body = re.sub(r"\*([A-Za-z_]\w*)", r"\1", body)
+    for (cn, ct, parts) in caps:
+        if ct == "tuple":
+            body = body.replace(cn + ".0", parts[0]).replace(cn + ".1", parts[1])
+    return names, mutated, caps, body, line
+
+def gen_kernels(repo, out_path):
+    rf = RustFile(os.path.join(repo, "src/math/cpu_math.rs"))
+    out = [HEADER, "", "namespace NutsModel.Gen.Kernels", "open NutsModel", "", SCALAR_CTX, ""]
+    em = Emitter({}, {}, "src/math/cpu_math.rs")
+    for (fn_name, outputs) in KERNELS:
+        names, mutated, caps, body, line = closure_kernel(rf, fn_name)
+        if sorted(mutated) != sorted(outputs):
+            raise Untranslatable(f"cpu_math.rs: {fn_name}: closure writes {mutated}, expected {outputs}")
+        params = [f"{n}: f64" for n in names]
+        for (cn, ct, parts) in caps:
+            if ct == "tuple":
+                params += [f"{p}: f64" for p in parts]
+            else:
+                params.append(f"{cn}: {ct}")
+        for o in outputs:
+            muts = "".join(f"let mut {n} = {n};\n" for n in mutated)
+            src = f"fn {fn_name}_{o}({', '.join(params)}) -> f64 {{\n{muts}{body}\nreturn {o};\n}}"
+            fn = parse_fn(src, "src/math/cpu_math.rs", line)
+            lean = em.function(None, fn, f"{fn_name}_{o}")
+            out.append(f"/-- `src/math/cpu_math.rs:{line}` element-wise closure of `{fn_name}`, output `{o}` -/")
+            out.append(lean)
+    out.append("end NutsModel.Gen.Kernels")
+    open(out_path, "w").write("\n".join(out) + "\n")
+
+
+
 def main(argv):
     import argparse
     ap = argparse.ArgumentParser()
@@ -1492,13 +1568,17 @@ def main(argv):
     ap.add_argument("--out", default=os.path.join(os.path.dirname(os.path.abspath(__file__)), "..", "lean", "NutsModel", "Gen"))
     ap.add_argument("modules", nargs="*")
     a = ap.parse_args(argv)
-    mods = a.modules or (list(MODULES) + ["Schema", "Settings"])
+    mods = a.modules or (list(MODULES) + ["Schema", "Settings", "Kernels"])
     rc = 0
     for m in mods:
         try:
             if m == "Settings":
                 gen_settings(a.repo, os.path.join(a.out, "Settings.lean"))
                 print("rs2lean: generated Gen/Settings.lean")
+                continue
+            if m == "Kernels":
+                gen_kernels(a.repo, os.path.join(a.out, "Kernels.lean"))
+                print("rs2lean: generated Gen/Kernels.lean")
                 continue
             if m == "Schema":
                 gen_schema(a.repo, os.path.join(a.out, "Schema.lean"))
